@@ -4,7 +4,7 @@ from .. import m7
 
 
 def check(ctx):
-    ctx.explanation = ("every with statement of the WithLang program space plus a systematic sweep of 24 target forms x 6 line "
+    ctx.explanation = ("every with statement of the WithLang program space plus a systematic sweep of 28 target forms x 6 line "
                        "layouts x sync/async x 1..3 items; at every suspension each reported context's start_line must be the "
                        "line of its with keyword and varname must be None / parse to the item's target (list unpacking rendered "
                        "as tuple) / name a local bound to the manager when there is no target; supported forms may not be dropped")
